@@ -298,11 +298,18 @@ func proofToPath(
 	proof *ProofNodeSet,
 	allowNonExistent bool,
 ) (trienode.Node, *felt.Felt, error) {
-	// Retrieves the node from the proof node set given the node hash
+	// Retrieves the node from the proof node set given the node hash. The key a node is stored
+	// under is chosen by whoever built the set, so the node must hash to it: the single element
+	// and the empty range cases never recompute the root from the resolved nodes.
+	h := newHasher(crypto.Pedersen, false)
 	retrieveNode := func(hash *felt.Felt) (trienode.Node, error) {
 		n, ok := proof.Get(*hash)
 		if !ok {
 			return nil, fmt.Errorf("proof node not found, expected hash: %s", hash.String())
+		}
+		_, hn := h.proofHash(n)
+		if got := hn.Hash(nil); !got.Equal(hash) {
+			return nil, fmt.Errorf("proof node hash mismatch, expected hash: %s, got hash: %s", hash.String(), got.String())
 		}
 		return n, nil
 	}
